@@ -30,4 +30,6 @@ DELIVERABLE: for each change k = 1..{n} create the directory {wt}/seed_out/<k>/ 
    demo.py     - the demonstration (must run with cwd = a checkout of the library; use only relative paths like tests/data/... or temp files)
    meta.json   - {{"property": "{d['id']}", "summary": "...what was changed...", "needs": "...what is needed for the breakage to manifest...", "tests_run": "...the pytest command(s) you ran and their result...", "rebuild": "<extension name to rebuild, or null>"}}
 After producing each patch, restore the worktree to the clean state (`git checkout -- .` and rebuild the extension if you had rebuilt it) before starting the next change, and verify yourself that demo.py passes on the clean tree and fails with the patch applied.
+Never use `git stash` (the stash is shared between worktrees) and never run git commands that affect anything outside {wt}. Start demo.py with `import os, sys; sys.path.insert(0, os.getcwd())` so that it imports the library of the directory it is run in.
+Also avoid changes that an attentive reviewer would spot at once as touching the obvious line for this property; prefer mistakes in helper functions, defaults, caches, index arithmetic, option plumbing or rarely-taken branches that the property depends on indirectly.
 Finish with a short list of the changes you made. Do not commit anything.""")
